@@ -1758,11 +1758,6 @@ Proof.
   - exfalso. apply get_valid in H. congruence.
 Qed.
 
-(* there is a downward path of d edges from c *)
-Inductive deep (h : heap) : nat -> nat -> Prop :=
-| deep_0 : forall c, deep h c 0
-| deep_S : forall c x d, In x (children h c) -> deep h x d -> deep h c (S d).
-
 Lemma deep_ext : forall h g, wf h -> ext h g -> forall x d, deep g x d -> x < length h -> deep h x d.
 Proof.
   intros h g W [L E]. induction 1; intros V. constructor.
@@ -3056,3 +3051,545 @@ Theorem compare_partial : forall h s o, wf_b h = true -> s < length h -> o < len
   root_of h s = root_of h o -> parent h (root_of h s) = None ->
   compare_pos h s o = VVal (spec_compare_dewey h s o).
 Proof. intros h s o W. apply wf_b_iff in W. apply compare_clean; auto. Qed.
+
+(* ====================================================================================================== *)
+(* T. normalize refines norm_tree *)
+
+Definition below (h : heap) (a m : nat) : Prop := In a (chain (length h) h m).
+
+Lemma chain_next : forall h F m a p, rooted F h m = true -> In a (chain F h m) -> up h a = Some p -> In p (chain F h m).
+Proof.
+  induction F; intros m a p R I U; simpl in *; try discriminate.
+  destruct I as [<-|I].
+  - rewrite U in *. right. destruct F; simpl in R; try discriminate. simpl. auto.
+  - destruct (up h m) as [q|] eqn:Um; try contradiction. right. eapply IHF; eauto.
+Qed.
+
+Lemma unique_child : forall h, wf h -> forall F m a b p,
+  In a (chain F h m) -> In b (chain F h m) -> up h a = Some p -> up h b = Some p -> a = b.
+Proof.
+  intros h W. induction F; intros m a b p Ia Ib Ua Ub; simpl in *; try contradiction.
+  assert (K : forall c, up h c = Some p -> forall G, ~ In c (chain G h p)).
+  { intros c Uc G. apply up_Some in Uc. destruct Uc as (_ & T & I). apply child_not_ancestor; auto. }
+  destruct Ia as [<-|Ia]; destruct Ib as [<-|Ib]; auto.
+  - rewrite Ua in Ib. exfalso. exact (K b Ub F Ib).
+  - rewrite Ub in Ia. exfalso. exact (K a Ua F Ia).
+  - destruct (up h m) as [q|]; try contradiction. eapply IHF; eauto.
+Qed.
+
+Lemma not_frag_text_tree : forall h x, x < length h -> is_frag h x = false -> is_text h x = false -> is_tree h x = true.
+Proof.
+  unfold is_frag, is_text, is_tree, kind_of. intros. destruct (get h x) as [nd|] eqn:E.
+  - destruct (nkind nd); auto; discriminate.
+  - exfalso. apply get_valid in H. congruence.
+Qed.
+
+Lemma dfs_below : forall h, wf h -> forall F x m, x < length h -> is_frag h x = false ->
+  In m (dfs F h x) -> below h x m.
+Proof.
+  intros h W. unfold below. induction F; intros x m V Fx I; simpl in I; try contradiction.
+  destruct I as [<-|I].
+  - destruct (length h); [lia|simpl; auto].
+  - apply in_flat_map in I. destruct I as (c & Ic & Im).
+    destruct (wf_children _ W _ _ Ic) as (Vc & Fc & _).
+    pose proof (IHF c m Vc Fc Im) as B.
+    destruct (is_text h x) eqn:Tx. { rewrite (wf_leaf _ W _ Tx) in Ic. contradiction. }
+    pose proof (not_frag_text_tree h x V Fx Tx) as T.
+    assert (Vm : m < length h) by (eapply wf_dfs_valid; eauto).
+    eapply chain_next; eauto. apply cmp_rooted; auto. apply up_lists; auto.
+Qed.
+
+Lemma parent_not_in_subtree : forall h p c F, wf h -> is_tree h p = true -> In c (children h p) -> ~ In p (dfs F h c).
+Proof.
+  intros h p c F W T I J. destruct (wf_children _ W _ _ I) as (Vc & Fc & _).
+  apply (dfs_below h W F c p Vc Fc) in J. exact (child_not_ancestor h p c W T I _ J).
+Qed.
+
+Lemma shape_same : forall g g' F n,
+  (forall m, In m (dfs F g n) -> kind_of g' m = kind_of g m /\ children g' m = children g m) ->
+  shape F g' n = shape F g n /\ dfs F g' n = dfs F g n.
+Proof.
+  intros g g'. induction F; simpl; intros n H; auto.
+  destruct (H n (or_introl eq_refl)) as [K C]. rewrite K, C.
+  assert (S : forall x, In x (children g n) -> shape F g' x = shape F g x /\ dfs F g' x = dfs F g x).
+  { intros x I. apply IHF. intros m Im. apply H. right. apply in_flat_map. exists x. auto. }
+  split.
+  - f_equal. apply map_ext_In. intros. apply S; auto.
+  - f_equal. apply flat_map_ext_In. intros. apply S; auto.
+Qed.
+
+Lemma chain_incl_old : forall h g, (forall y, y < length h -> up g y = up h y \/ up g y = None) ->
+  forall F m, m < length h -> incl (chain F g m) (chain F h m).
+Proof.
+  intros h g Hu. induction F; intros m V; simpl. apply incl_refl.
+  destruct (Hu m V) as [E|E]; rewrite E.
+  - destruct (up h m) as [q|] eqn:U; try apply incl_refl.
+    intros x [D|D]; [left; auto|right]. apply IHF; auto. eapply up_valid; eauto.
+  - intros x [D|[]]. left; auto.
+Qed.
+
+Lemma deep_transfer : forall h g x, (forall F m, In m (dfs F h x) -> children g m = children h m) ->
+  forall d, deep g x d -> deep h x d.
+Proof.
+  intros h g x Hs d D. revert Hs. induction D as [c|c x d Ic Dx IH]; intros Hs. constructor.
+  assert (E : children g c = children h c) by (apply (Hs 1); simpl; auto).
+  rewrite E in Ic. econstructor; eauto. apply IH.
+  intros F m Im. apply (Hs (S F)). simpl. right. apply in_flat_map. exists x. auto.
+Qed.
+
+(* the loop of Node.normalize, on trees *)
+Definition flush_tree (buf : list (list Z)) : list tree :=
+  match buf with [] => [] | _ => [T (Some (KText (concat buf))) []] end.
+
+Fixpoint merge_acc (buf : list (list Z)) (l : list tree) : list tree :=
+  match l with
+  | [] => flush_tree buf
+  | t :: r => match text_leaf t with
+              | Some s => merge_acc (buf ++ [s]) r
+              | None => flush_tree buf ++ t :: merge_acc [] r
+              end
+  end.
+
+Lemma merge_text_cons_text : forall a k l, merge_text (T (Some (KText a)) k :: l) =
+  match merge_text l with
+  | T (Some (KText s')) _ :: r' => T (Some (KText (a ++ s'))) [] :: r'
+  | r' => T (Some (KText a)) [] :: r'
+  end.
+Proof. reflexivity. Qed.
+
+Lemma merge_acc_spec : forall l buf, merge_acc buf l =
+  match buf with [] => merge_text l | _ => merge_text (T (Some (KText (concat buf))) [] :: l) end.
+Proof.
+  induction l as [|t r IH]; intros buf.
+  - destruct buf; reflexivity.
+  - cbn [merge_acc]. destruct (text_leaf t) as [s|] eqn:Lt.
+    + assert (Ht : exists k, t = T (Some (KText s)) k).
+      { destruct t as [[[ | | | ]|] k]; simpl in Lt; try discriminate. inversion Lt. eauto. }
+      destruct Ht as [k ->]. rewrite IH.
+      assert (Ne : buf ++ [s] <> []) by (destruct buf; discriminate).
+      destruct (buf ++ [s]) as [|b0 bs] eqn:Eb; try congruence. rewrite <- Eb. clear Eb b0 bs Ne.
+      rewrite concat_app. simpl concat. rewrite app_nil_r.
+      destruct buf as [|b buf'].
+      * simpl app. rewrite !merge_text_cons_text. auto.
+      * rewrite (merge_text_cons_text (concat (b :: buf'))). rewrite (merge_text_cons_text s).
+        rewrite (merge_text_cons_text (concat (b :: buf') ++ s)).
+        destruct (merge_text r) as [|[[[n'|s'| |]|] k'] r']; auto. rewrite app_assoc. auto.
+    + rewrite IH. destruct buf as [|b buf'].
+      * simpl. rewrite Lt. auto.
+      * cbn [flush_tree app]. rewrite merge_text_cons_text.
+        assert (E : merge_text (t :: r) = t :: merge_text r) by (simpl; rewrite Lt; auto). rewrite E.
+        destruct t as [[[ | | | ]|] k]; simpl in Lt; try discriminate; auto.
+Qed.
+
+Lemma append_text_new : forall g p text, wf g -> noattr g -> is_tree g p = true -> text <> [] ->
+  let r := append_text g p text in
+  length (fst r) = S (length g) /\ kind_of (fst r) (length g) = Some (KText (concat text)) /\ children (fst r) (length g) = [].
+Proof.
+  intros g p text W Na T Nt r. subst r. unfold append_text. destruct text as [|t0 text']; try congruence.
+  pose proof (is_tree_valid _ _ T) as Vp. destruct (wf_owner _ W _ Vp) as [Ow Od]. rewrite Ow. unfold alloc.
+  set (nd := mkNode (KText (concat (t0 :: text'))) [] (Some p) (Some (creator g p)) [] (creator g p)).
+  remember (g ++ [nd]) as g1 eqn:Eg1.
+  assert (A : allocated g nd g1) by (constructor; auto).
+  pose proof (allocated_wf A W) as W1. pose proof (al_up A W) as U1.
+  pose proof (allocated_noattr _ _ _ A eq_refl Na) as N1.
+  assert (Rp : receiver g1 p = true) by (unfold receiver; rewrite (al_tree_old A) by auto; rewrite T; auto).
+  assert (Kt : kind_of g1 (length g) = Some (KText (concat (t0 :: text')))) by (unfold kind_of; rewrite (al_get_new A); auto).
+  assert (Fr : free g1 p (length g)).
+  { refine (conj _ (conj _ (conj _ (conj _ (conj _ _))))).
+    - rewrite (al_len A). lia.
+    - right. unfold is_text. rewrite Kt. auto.
+    - unfold creator at 1. rewrite (al_get_new A). simpl. rewrite (al_creator_old A); auto.
+    - rewrite U1. apply up_invalid. lia.
+    - rewrite (al_children_all A). intro I. destruct (wf_children _ W _ _ I). lia.
+    - intros F I. rewrite (chain_ext g g1) in I by auto. pose proof (chain_valid g F p Vp _ I). lia. }
+  destruct (free_not_frag _ _ _ Fr) as (Xf & Xd & Xv).
+  unfold fuel0. rewrite append_attach by auto.
+  destruct (attach_attached g1 p (length (children g1 p)) (length g) Rp Xv Xd) as [At O].
+  pose proof (attached_wf _ _ _ _ _ W1 Rp Fr At) as W2.
+  destruct (attached_up _ _ _ _ _ W1 Rp Fr At) as [U2 _].
+  destruct (attach g1 p (length (children g1 p)) (length g)) as [g2 o2]. cbn [fst snd] in *. subst o2.
+  pose proof (at_edit _ _ _ _ _ At) as Ed.
+  assert (Np : Nat.eqb (length g) p = false) by (apply Nat.eqb_neq; lia).
+  split; [|split].
+  - rewrite (e_len _ _ Ed), (al_len A). auto.
+  - rewrite (e_kind _ _ Ed). auto.
+  - rewrite (at_children _ _ _ _ _ At), Np, (al_children_all A). apply children_invalid. lia.
+Qed.
+
+Definition full (F : nat) (h : heap) (n : nat) : Prop := forall d, deep h n d -> d < F.
+
+Lemma flush_shapes : forall g p buf F', wf g -> noattr g -> is_tree g p = true -> buf <> [] -> 1 <= F' ->
+  map (shape F' (fst (append_text g p buf))) (children (fst (append_text g p buf)) p) =
+  map (shape F' g) (children g p) ++ flush_tree buf.
+Proof.
+  intros g p buf F' W Na T Nb LF.
+  destruct (append_text_ok g p buf W Na T Nb) as (_ & W1 & _ & K1 & _ & C1).
+  destruct (append_text_new g p buf W Na T Nb) as (L1 & Kt & Ct).
+  set (g1 := fst (append_text g p buf)) in *.
+  pose proof (is_tree_valid _ _ T) as Vp.
+  rewrite (C1 p Vp), Nat.eqb_refl, map_app. f_equal.
+  - apply map_ext_In. intros c Ic. apply shape_same. intros m Im.
+    destruct (wf_children _ W _ _ Ic) as (Vc & _).
+    assert (Vm : m < length g) by (eapply wf_dfs_valid; eauto).
+    destruct K1 as [_ K1']. destruct (K1' m Vm) as [Km _]. split; auto.
+    rewrite (C1 m Vm). destruct (Nat.eqb_spec m p) as [->|N]; auto.
+    exfalso. exact (parent_not_in_subtree g p c F' W T Ic Im).
+  - destruct F' as [|F'']; try lia. destruct buf as [|b bs]; try congruence.
+    simpl. rewrite Kt, Ct. auto.
+Qed.
+
+Lemma attach_shapes : forall g1 p x g2 F', wf g1 -> is_tree g1 p = true -> free g1 p x ->
+  attached g1 p (length (children g1 p)) x g2 ->
+  children g2 p = children g1 p ++ [x] /\
+  (forall c, ~ In p (dfs F' g1 c) -> shape F' g2 c = shape F' g1 c /\ dfs F' g2 c = dfs F' g1 c) /\
+  ~ In p (dfs F' g1 x) /\ (forall c, In c (children g1 p) -> ~ In p (dfs F' g1 c)).
+Proof.
+  intros g1 p x g2 F' W T Fr A. pose proof (at_edit _ _ _ _ _ A) as Ed.
+  split; [|split; [|split]].
+  - rewrite (at_children _ _ _ _ _ A), Nat.eqb_refl, insert_at_end. auto.
+  - intros c Nc. apply shape_same. intros m Im. split. apply (e_kind _ _ Ed).
+    rewrite (at_children _ _ _ _ _ A). destruct (Nat.eqb_spec m p) as [->|N]; auto. contradiction.
+  - intros J. destruct (free_not_frag _ _ _ Fr) as (Xf & _ & Xv).
+    apply (dfs_below g1 W F' x p Xv Xf) in J. destruct Fr as (_ & _ & _ & _ & _ & Fa). exact (Fa _ J).
+  - intros c Ic. apply parent_not_in_subtree; auto.
+Qed.
+
+Lemma tree_eqb_refl : forall t, tree_eqb t t = true.
+Proof.
+  induction t as [k kids IH] using tree_ind'. simpl. apply andb_true_iff. split.
+  - destruct k as [[n|s| |]|]; simpl; auto. apply Z.eqb_refl. destruct (list_eq_dec Z.eq_dec s s); auto.
+  - induction kids as [|x r IHr]; auto. rewrite IH by (simpl; auto). simpl. apply IHr. intros. apply IH. simpl; auto.
+Qed.
+
+Definition norm_post2 (f : nat) (h : heap) (p : nat) (h' : heap) (r : outcome) : Prop :=
+  norm_post h h' r /\
+  ((exists v, r = ROk v) ->
+     (forall m, m < length h -> ~ below h p m -> children h' m = children h m) /\
+     (forall F, full F h p -> shape F h' p = norm_tree (shape F h p))) /\
+  (full f h p -> r <> RFuel).
+
+Definition norm_ih2 (f : nat) : Prop :=
+  forall h p, wf h -> noattr h -> is_tree h p = true ->
+    norm_post2 f h p (fst (normalize_f f h p)) (snd (normalize_f f h p)).
+
+Section NormRef.
+  Context (f : nat) (h : heap) (p : nat) (F' : nat).
+  Context (IH : norm_ih2 f) (Wh : wf h) (Tp : is_tree h p = true).
+
+  Definition NT (x : nat) : tree := norm_tree (shape F' h x).
+  Definition TOTAL : list tree := merge_acc [] (map NT (children h p)).
+
+  Record xinv (xs : list nat) (buf : list (list Z)) (g : heap) : Prop := mk_xinv {
+    xi_cf : forall m, m < length h -> m <> p ->
+              (forall y, In y (children h p) -> ~ In y xs -> ~ below h y m) -> children g m = children h m;
+    xi_si : full (S F') h p -> map (shape F' g) (children g p) ++ merge_acc buf (map NT xs) = TOTAL;
+    xi_buf : buf <> [] -> full (S F') h p -> 1 <= F'
+  }.
+
+  Lemma nr_child_facts : forall x, In x (children h p) ->
+    x < length h /\ is_frag h x = false /\ up h x = Some p /\ forall d, deep h x d -> deep h p (S d).
+  Proof.
+    intros x Ix. destruct (wf_children _ Wh _ _ Ix) as (Vx & Fx & _). repeat split; auto.
+    apply up_lists; auto. intros. econstructor; eauto.
+  Qed.
+
+  (* the subtree of a child that is still waiting has not been touched *)
+  Lemma nr_same_sub : forall xs buf g x, xinv xs buf g -> In x xs -> In x (children h p) ->
+    forall F m, In m (dfs F h x) -> children g m = children h m.
+  Proof.
+    intros xs buf g x X Ixs Ix F m Im. destruct (nr_child_facts x Ix) as (Vx & Fx & Ux & _).
+    apply (xi_cf _ _ _ X).
+    - eapply wf_dfs_valid; eauto.
+    - intros ->. exact (parent_not_in_subtree h p x F Wh Tp Ix Im).
+    - intros y Iy Ny B. pose proof (dfs_below h Wh F x m Vx Fx Im) as Bx.
+      assert (y = x). { eapply (unique_child h Wh); eauto. apply up_lists; auto. }
+      subst. auto.
+  Qed.
+
+  Lemma nr_NT_text : forall x, In x (children h p) -> is_text h x = true -> 1 <= F' -> text_leaf (NT x) = Some (text_of h x).
+  Proof.
+    intros x Ix Tx LF. unfold NT. destruct F' as [|F'']; try lia. simpl.
+    unfold is_text, text_of in *. destruct (kind_of h x) as [[]|]; try discriminate. auto.
+  Qed.
+
+  Lemma nr_NT_nontext : forall x, is_text h x = false -> text_leaf (NT x) = None.
+  Proof.
+    intros x Tx. unfold NT. destruct F' as [|F'']; auto. simpl.
+    unfold is_text in *. destruct (kind_of h x) as [[]|]; try discriminate; auto.
+  Qed.
+
+  Lemma nr_full_pos : forall x, In x (children h p) -> full (S F') h p -> 1 <= F'.
+  Proof.
+    intros x Ix Fu. assert (D : deep h p 1) by (econstructor; eauto; constructor). apply Fu in D. lia.
+  Qed.
+End NormRef.
+
+Lemma norm_loop2 : forall f h p F', norm_ih2 f -> wf h -> is_tree h p = true ->
+  forall xs g buf, ninv h xs g -> incl xs (children h p) -> NoDup xs -> xinv h p F' xs buf g ->
+    let r := norm_items (normalize_f f) g p xs buf in
+    wf (fst r) /\ noattr (fst r) /\ keeps h (fst r) /\ ((exists v, snd r = ROk v) \/ snd r = RFuel) /\
+    ((exists v, snd r = ROk v) -> upframe h (fst r) /\ xinv h p F' [] [] (fst r)) /\
+    (full (S f) h p -> snd r <> RFuel).
+Proof.
+  intros f h p F' IH Wh Tp. pose proof (is_tree_valid _ _ Tp) as Vp.
+  induction xs as [|x xs IHxs]; intros g text N Inc ND X; cbn [norm_items].
+  - (* the final appendText *)
+    destruct N as [Wg Ag Kg Ug].
+    assert (Tg : is_tree g p = true) by (rewrite (keeps_tree h g); auto).
+    destruct text as [|t0 text'].
+    + cbn [append_text fst snd]. refine (conj Wg (conj Ag (conj Kg (conj (or_introl (ex_intro _ None eq_refl)) (conj _ _))))).
+      * intros _. split; auto. intros m V. destruct (Ug m V) as [_ B]. apply B. intros [].
+      * intros _. discriminate.
+    + destruct (append_text_ok g p (t0 :: text') Wg Ag Tg ltac:(discriminate)) as (O & W1 & A1 & K1 & U1 & C1).
+      pose proof (flush_shapes g p (t0 :: text') F' Wg Ag Tg ltac:(discriminate)) as FS.
+      destruct (append_text g p (t0 :: text')) as [g1 o1]. cbn [fst snd] in *.
+      refine (conj W1 (conj A1 (conj (keeps_trans _ _ _ Kg K1) (conj _ (conj _ _))))). left; eauto.
+      * intros _. destruct Kg as [Lg _]. split.
+        { intros m V. rewrite U1 by lia. destruct (Ug m V) as [_ B]. apply B. intros []. }
+        { constructor.
+          - intros m V Nm Hy. rewrite (C1 m) by lia. apply Nat.eqb_neq in Nm. rewrite Nm. apply (xi_cf _ _ _ _ _ _ X); auto. apply Nat.eqb_neq; auto.
+          - intros Fu. pose proof (xi_si _ _ _ _ _ _ X Fu) as S0. simpl in S0. simpl. rewrite app_nil_r.
+            rewrite FS; auto. apply (xi_buf _ _ _ _ _ _ X); auto. discriminate.
+          - intros Nb. congruence. }
+      * intros _. rewrite O. discriminate.
+  - pose proof N as [Wg Ag Kg Ug]. pose proof Kg as [Lg Kg'].
+    assert (Ix : In x (children h p)) by (apply Inc; simpl; auto).
+    destruct (wf_children _ Wh _ _ Ix) as (Vx & Fx & Dx & Crx).
+    destruct (nr_child_facts h p Wh Tp x Ix) as (_ & _ & Uhx & Dpx).
+    assert (Tg : is_tree g p = true) by (rewrite (keeps_tree h g); auto).
+    inversion ND as [|? ? Nx ND']; subst.
+    assert (Inc' : incl xs (children h p)) by (intros y Iy; apply Inc; simpl; auto).
+    rewrite (keeps_text h g) by auto.
+    destruct (is_text h x) eqn:Tx.
+    + (* a text node: remembered, stays out of the tree *)
+      assert (Eg : text_of g x = text_of h x) by (unfold text_of; destruct (Kg' x Vx) as [-> _]; auto).
+      rewrite Eg.
+      apply IHxs; auto.
+      * constructor; auto. intros m V. destruct (Ug m V) as [A B]. split.
+        { intros Im. apply A. simpl; auto. }
+        { intros Nm. destruct (Nat.eq_dec m x) as [->|Ne].
+          - right. split; auto. apply A. simpl; auto.
+          - apply B. simpl. intros [E'|E']; [congruence|auto]. }
+      * constructor.
+        { intros m V Nm Hy. apply (xi_cf _ _ _ _ _ _ X); auto. intros y Iy Ny. apply Hy; auto. intro. apply Ny. simpl; auto. }
+        { intros Fu. rewrite <- (xi_si _ _ _ _ _ _ X Fu). f_equal. simpl.
+          rewrite (nr_NT_text h p F' x Ix Tx (nr_full_pos h p F' x Ix Fu)). auto. }
+        { intros _ Fu. apply (nr_full_pos h p F' x Ix Fu). }
+    + (* an element: flush the buffer, re-append it, normalize it *)
+      assert (S1 : exists g1, fst (append_text g p text) = g1 /\ (exists v, snd (append_text g p text) = ROk v) /\
+                   wf g1 /\ noattr g1 /\ keeps g g1 /\ (forall m, m < length g -> up g1 m = up g m) /\
+                   (forall m, m < length g -> m <> p -> children g1 m = children g m) /\
+                   (1 <= F' \/ text = [] -> map (shape F' g1) (children g1 p) = map (shape F' g) (children g p) ++ flush_tree text)).
+      { destruct text as [|t0 text'].
+        - exists g. cbn [append_text fst snd].
+          refine (conj eq_refl (conj (ex_intro _ None eq_refl) (conj Wg (conj Ag (conj (keeps_refl g) (conj (fun m _ => eq_refl) (conj (fun m _ _ => eq_refl) _))))))).
+          intros _. simpl. rewrite app_nil_r. auto.
+        - destruct (append_text_ok g p (t0 :: text') Wg Ag Tg ltac:(discriminate)) as (O & W1 & A1 & K1 & U1 & C1).
+          pose proof (flush_shapes g p (t0 :: text') F' Wg Ag Tg ltac:(discriminate)) as FS.
+          eexists. split; [reflexivity|].
+          refine (conj (ex_intro _ _ O) (conj W1 (conj A1 (conj K1 (conj U1 (conj _ _)))))).
+          + intros m V Nm. rewrite (C1 m V). apply Nat.eqb_neq in Nm. rewrite Nm. auto.
+          + intros [L|E]; [apply FS; auto|discriminate]. }
+      destruct S1 as (g1 & E1 & [v1 O1] & W1 & A1 & K1 & U1 & C1 & FS).
+      destruct (append_text g p text) as [g1' o1]. cbn [fst snd] in E1, O1. subst g1' o1. cbn [bind].
+      pose proof (keeps_trans _ _ _ Kg K1) as Kh1. pose proof K1 as [L1 _].
+      assert (T1 : is_tree g1 p = true) by (rewrite (keeps_tree h g1); auto).
+      assert (R1 : receiver g1 p = true) by (unfold receiver; rewrite T1; auto).
+      assert (Ex : is_elem h x = true).
+      { destruct (not_frag_doc_kind h x Vx Fx Dx); auto. congruence. }
+      assert (Ux1 : up g1 x = None) by (rewrite U1 by lia; apply (Ug x Vx); simpl; auto).
+      assert (N1 : ninv h (x :: xs) g1).
+      { constructor; auto. intros m V. rewrite U1 by lia. apply Ug; auto. }
+      assert (Fr : free g1 p x).
+      { refine (conj _ (conj _ (conj _ (conj Ux1 (conj _ _))))).
+        - lia.
+        - left. unfold is_elem. destruct Kh1 as [_ Kh1']. destruct (Kh1' x Vx) as [-> _]. auto.
+        - destruct Kh1 as [_ Kh1']. destruct (Kh1' x Vx) as [_ ->]. destruct (Kh1' p Vp) as [_ ->]. auto.
+        - intro I. rewrite (up_lists g1 p x W1 T1 I) in Ux1. discriminate.
+        - intros F I. rewrite (ninv_chain h (x :: xs) g1 N1 F p Vp) in I.
+          + exact (child_not_ancestor h p x Wh Tp Ix F I).
+          + intros y Iy. split.
+            * intro J. exact (child_not_ancestor h p y Wh Tp (Inc y J) F Iy).
+            * destruct F; simpl in Iy; try contradiction. destruct Iy as [<-|Iy]. apply tree_not_text; auto.
+              destruct (up h p) as [q|] eqn:Uq; try contradiction.
+              apply tree_not_text. eapply chain_above_trees; eauto. }
+      destruct (free_not_frag _ _ _ Fr) as (Xf & Xd & Xv).
+      unfold fuel0. rewrite append_attach by auto.
+      destruct (attach_attached g1 p (length (children g1 p)) x R1 Xv Xd) as [At O2].
+      pose proof (attached_wf _ _ _ _ _ W1 R1 Fr At) as W2.
+      destruct (attached_up _ _ _ _ _ W1 R1 Fr At) as [U2 U2'].
+      destruct (attach_shapes g1 p x _ F' W1 T1 Fr At) as (Cp2 & Sh2 & Npx & Npc).
+      destruct (attach g1 p (length (children g1 p)) x) as [g2 o2]. cbn [fst snd] in *. subst o2. cbn [bind].
+      pose proof (at_edit _ _ _ _ _ At) as Ed2. rewrite T1 in U2'.
+      pose proof (keeps_trans _ _ _ Kh1 (edit_keeps _ _ Ed2)) as Kh2.
+      assert (A2 : noattr g2) by (intro m; rewrite (e_attrs _ _ Ed2); auto).
+      assert (T2 : is_tree g2 p = true) by (rewrite (e_tree Ed2); auto).
+      assert (Tx2 : is_tree g2 x = true).
+      { rewrite (keeps_tree h g2) by auto. unfold is_tree, is_elem in *. destruct (kind_of h x) as [[]|]; auto; discriminate. }
+      assert (C2 : forall m, m <> p -> children g2 m = children g1 m).
+      { intros m Nm. rewrite (at_children _ _ _ _ _ At). apply Nat.eqb_neq in Nm. rewrite Nm. auto. }
+      assert (N2 : ninv h xs g2).
+      { constructor; auto. intros m V. destruct (ni_up _ _ _ N1 m V) as [A B]. split.
+        - intros Im. rewrite U2. apply A; simpl; auto. intros ->. auto.
+        - intros Nm. destruct (Nat.eq_dec m x) as [->|Ne].
+          + left. rewrite U2'. symmetry. apply up_lists; auto.
+          + rewrite U2 by auto. apply B. simpl. intros [E'|E']; [congruence|auto]. }
+      (* the subtree of x is still what it was in h *)
+      assert (SS : forall F m, In m (dfs F h x) -> children g2 m = children h m).
+      { intros F m Im. assert (Vm : m < length h) by (eapply wf_dfs_valid; eauto).
+        assert (Nm : m <> p) by (intros ->; exact (parent_not_in_subtree h p x F Wh Tp Ix Im)).
+        rewrite C2, C1 by (auto; lia). eapply (nr_same_sub h p F' Wh Tp); eauto. simpl; auto. }
+      assert (Sx2 : shape F' g2 x = shape F' h x).
+      { apply shape_same. intros m Im. split. destruct Kh2 as [_ K]. apply K. eapply wf_dfs_valid; eauto. eapply SS; eauto. }
+      assert (Dx2 : forall d, deep g2 x d -> deep h p (S d)).
+      { intros d D. apply Dpx. eapply deep_transfer; eauto. }
+      assert (Ix2 : In x (children g2 p)) by (rewrite Cp2; apply in_app_iff; simpl; auto).
+      assert (Ux2 : up g2 x = Some p) by (apply up_lists; auto).
+      (* old nodes outside the subtree of x (in h) are outside it in g2 too *)
+      assert (NB : forall m, m < length h -> ~ below h x m -> ~ below g2 x m).
+      { intros m V NBh B. apply NBh. unfold below in *.
+        apply (chain_complete h m Wh V (length g2)).
+        eapply (chain_incl_old h g2); eauto.
+        intros y Vy. destruct (ni_up _ _ _ N2 y Vy) as [A B']. destruct (in_dec Nat.eq_dec y xs) as [I|I].
+        - right. auto.
+        - destruct (B' I) as [E|[_ E]]; auto. }
+      destruct (IH g2 x W2 A2 Tx2) as ((W3 & A3 & K3 & O3 & F3) & P23 & P4).
+      destruct (normalize_f f g2 x) as [g3 o3]. cbn [fst snd] in *.
+      pose proof (keeps_trans _ _ _ Kh2 K3) as Kh3.
+      destruct O3 as [[v3 ->]| ->]; cbn [bind].
+      * destruct (P23 (ex_intro _ v3 eq_refl)) as [P2 P3].
+        assert (N3 : ninv h xs g3).
+        { constructor; auto. intros m V. destruct (ni_up _ _ _ N2 m V) as [A B].
+          destruct Kh2 as [Lh2 Kh2']. specialize (F3 (ex_intro _ v3 eq_refl) m ltac:(lia)).
+          assert (Tm : is_text g2 m = is_text h m) by (unfold is_text; destruct (Kh2' m V) as [-> _]; auto).
+          rewrite Tm in F3. split.
+          - intros Im. specialize (A Im). destruct F3 as [E|[_ E]]; congruence.
+          - intros Nm. specialize (B Nm). destruct F3 as [E|[T E]]; [rewrite E; auto|auto]. }
+        assert (Vp2 : p < length g2) by (apply is_tree_valid; auto).
+        assert (Cp3 : children g3 p = children g2 p).
+        { apply P2; auto. intros B. exact (child_not_ancestor g2 p x W2 T2 Ix2 _ B). }
+        assert (X3 : xinv h p F' xs [] g3).
+        { constructor.
+          - intros m V Nm Hy. destruct Kh2 as [Lh2 _].
+            rewrite P2 by (try lia; apply NB; auto; apply Hy; auto).
+            rewrite C2, C1 by (auto; lia). apply (xi_cf _ _ _ _ _ _ X); auto.
+            intros y Iy Ny. apply Hy; auto. intro. apply Ny. simpl; auto.
+          - intros Fu. rewrite <- (xi_si _ _ _ _ _ _ X Fu). simpl map. cbn [merge_acc].
+            rewrite (nr_NT_nontext h F' x Tx).
+            assert (LF : 1 <= F' \/ text = []).
+            { destruct text; auto. left. apply (xi_buf _ _ _ _ _ _ X); auto. discriminate. }
+            rewrite Cp3, Cp2, map_app. simpl map.
+            assert (Ec : map (shape F' g3) (children g1 p) = map (shape F' g1) (children g1 p)).
+            { apply map_ext_In. intros c Ic.
+              assert (Ic2 : In c (children g2 p)) by (rewrite Cp2; apply in_app_iff; auto).
+              destruct (wf_children _ W2 _ _ Ic2) as (Vc & Fc & _).
+              destruct (Sh2 c (Npc c Ic)) as [Sc Dc]. rewrite <- Sc.
+              apply shape_same. intros m Im.
+              assert (Vm : m < length g2) by (eapply wf_dfs_valid; eauto).
+              destruct K3 as [_ K3']. destruct (K3' m Vm) as [Km _]. split; auto.
+              apply P2; auto. intros B.
+              pose proof (dfs_below g2 W2 F' c m Vc Fc Im) as Bc.
+              assert (c = x). { eapply (unique_child g2 W2); eauto. apply up_lists; auto. }
+              subst c. destruct Fr as (_ & _ & _ & _ & Nin & _). auto. }
+            rewrite Ec, (FS LF).
+            assert (Ex3 : shape F' g3 x = NT h F' x).
+            { unfold NT. rewrite <- Sx2. apply P3. intros d D. apply Dx2 in D. apply Fu in D. lia. }
+            rewrite Ex3. rewrite <- !app_assoc. auto.
+          - intros Nb. congruence. }
+        exact (IHxs g3 [] N3 Inc' ND' X3).
+      * cbn [fst snd]. refine (conj W3 (conj A3 (conj Kh3 (conj (or_intror eq_refl) (conj _ _))))).
+        { intros [v Hv]. discriminate. }
+        { intros Fu _. apply P4; auto. intros d D. apply Dx2 in D. apply Fu in D. lia. }
+Qed.
+
+Lemma norm_ok2 : forall f, norm_ih2 f.
+Proof.
+  induction f as [|f IH]; intros h p W Na T.
+  - pose proof (norm_ok 0 h p W Na T) as P1. simpl in *. split; auto. split.
+    + intros [v Hv]. discriminate.
+    + intros Fu. specialize (Fu 0 (deep_0 h p)). lia.
+  - pose proof (norm_ok (S f) h p W Na T) as P1. split; auto. clear P1.
+    rewrite normalize_f_S. rewrite (tree_not_text _ _ T). rewrite (Na p). cbn [map for_each bind]. cbv zeta.
+    pose proof (is_tree_valid _ _ T) as Vp.
+    destruct (clear_children_ok h p W T) as (W1 & E1 & C1 & U1).
+    assert (Co : forall m, m <> p -> children (set_children h p []) m = children h m).
+    { intros m Nm. rewrite children_set_children. apply Nat.eqb_neq in Nm. rewrite Nm. auto. }
+    assert (N1 : ninv h (children h p) (set_children h p [])).
+    { constructor; auto.
+      - intro m. rewrite (e_attrs _ _ E1). auto.
+      - apply edit_keeps; auto.
+      - intros m V. rewrite U1. split.
+        + intros I. rewrite (up_lists h p m W T I). simpl. rewrite Nat.eqb_refl. auto.
+        + intros NI. left. destruct (opt_eqb (up h m) (Some p)) eqn:Q; auto.
+          apply opt_eqb_eq in Q. apply up_Some in Q. tauto. }
+    assert (X0 : forall F', xinv h p F' (children h p) [] (set_children h p [])).
+    { intros F'. constructor.
+      - intros m V Nm _. apply Co; auto.
+      - intros _. rewrite C1. reflexivity.
+      - intros Nb. congruence. }
+    assert (LP : forall F', _) by (intros F'; exact (norm_loop2 f h p F' IH W T (children h p) (set_children h p []) [] N1 (incl_refl _) (wf_nodup _ W _ T) (X0 F'))).
+    cbv zeta in LP.
+    destruct (norm_items (normalize_f f) (set_children h p []) p (children h p) []) as [h2 o2]. cbn [fst snd] in *.
+    split.
+    + intros [v Hv]. destruct (LP 0) as (_ & _ & K2 & O2 & _).
+      assert (Ok : exists v2, o2 = ROk v2).
+      { destruct O2 as [Ok| ->]; auto. cbn [bind snd] in Hv. discriminate. }
+      destruct Ok as [v2 ->]. cbn [bind fst snd] in *. split.
+      * intros m V NB. destruct (LP 0) as (_ & _ & _ & _ & R5 & _). destruct (R5 (ex_intro _ v2 eq_refl)) as [_ X].
+        apply (xi_cf _ _ _ _ _ _ X); auto.
+        { intros ->. apply NB. unfold below. destruct (length h); [lia|simpl; auto]. }
+        { intros y Iy _ B. apply NB. unfold below in *. eapply chain_next; eauto. apply cmp_rooted; auto. apply up_lists; auto. }
+      * intros F Fu. destruct F as [|F']. { specialize (Fu 0 (deep_0 h p)). lia. }
+        destruct (LP F') as (_ & _ & _ & _ & R5 & _). destruct (R5 (ex_intro _ v2 eq_refl)) as [_ X].
+        pose proof (xi_si _ _ _ _ _ _ X Fu) as S. simpl in S. rewrite app_nil_r in S.
+        simpl. destruct K2 as [_ K2']. destruct (K2' p Vp) as [-> _]. f_equal. rewrite S.
+        unfold TOTAL. rewrite merge_acc_spec. unfold NT. rewrite map_map. auto.
+    + intros Fu. destruct (LP 0) as (_ & _ & _ & O2 & _ & R6). specialize (R6 Fu).
+      destruct O2 as [[v2 ->]| ->]; cbn [bind snd]; try discriminate. congruence.
+Qed.
+
+Lemma normalize_ret : forall f h p v, snd (normalize_f f h p) = ROk v -> v = None.
+Proof.
+  intros [|f] h p v; simpl; try discriminate.
+  destruct (is_text h p). simpl. congruence.
+  match goal with |- snd (bind ?A _) = _ -> _ => destruct A as [h0 [r0| | | |]] end; cbn [bind snd]; try discriminate.
+  match goal with |- snd (bind ?A _) = _ -> _ => destruct A as [h1 [r1| | | |]] end; cbn [bind snd]; try discriminate.
+  congruence.
+Qed.
+
+(* M5: Node.normalize on the heap = norm_tree on the tree *)
+Theorem normalize_refines : forall h p, wf_b h = true -> adm_op h (ONormalize p) = true ->
+  let h' := fst (step h (ONormalize p)) in
+  snd (step h (ONormalize p)) = ROk None /\
+  (forall F, (forall d, deep h p d -> d < F) -> shape F h' p = norm_tree (shape F h p)) /\
+  (forall m, m < length h -> ~ In p (chain (length h) h m) -> children h' m = children h m) /\
+  normalize_conforms h h' p = true.
+Proof.
+  intros h p W A. apply wf_b_iff in W. cbn [adm_op step] in *. apply andb_true_iff in A. destruct A as [T N].
+  assert (R : receiver h p = true) by (unfold receiver; rewrite T; auto). rewrite R.
+  apply no_attrs_noattr in N. pose proof (is_tree_valid _ _ T) as Vp.
+  destruct (norm_ok2 (S (length h)) h p W N T) as ((_ & _ & _ & O & _) & P23 & P4).
+  assert (Fu : full (S (length h)) h p) by (intros d D; pose proof (deep_bound _ _ _ W Vp D); lia).
+  specialize (P4 Fu).
+  assert (Ok : snd (normalize_f (S (length h)) h p) = ROk None).
+  { destruct O as [[v Hv]|Hf]; try congruence. rewrite Hv. f_equal. eapply normalize_ret; eauto. }
+  destruct (P23 (ex_intro _ None Ok)) as [P2 P3].
+  split; auto. split; [|split]; auto.
+  unfold normalize_conforms. rewrite (P3 _ Fu). apply tree_eqb_refl.
+Qed.
+
+Theorem normalize_fuel : forall h p, wf_b h = true -> adm_op h (ONormalize p) = true ->
+  snd (step h (ONormalize p)) <> RFuel.
+Proof. intros h p W A. destruct (normalize_refines h p W A) as [O _]. rewrite O. discriminate. Qed.
+
+Theorem history_normalize_refines : forall (ops : list op) (p : nat),
+  forallb covered ops = true -> adm_hist [] (ops ++ [ONormalize p]) = true ->
+  let h := run [] ops in let h' := fst (step h (ONormalize p)) in
+  snd (step h (ONormalize p)) = ROk None /\
+  (forall F, (forall d, deep h p d -> d < F) -> shape F h' p = norm_tree (shape F h p)) /\
+  (forall m, m < length h -> ~ In p (chain (length h) h m) -> children h' m = children h m).
+Proof.
+  intros ops p C A. rewrite adm_hist_app in A. apply andb_true_iff in A. destruct A as [A1 A2].
+  simpl in A2. rewrite andb_true_r in A2.
+  destruct (normalize_refines (run [] ops) p (history_wf ops C A1) A2) as (X1 & X2 & X3 & _). auto.
+Qed.
